@@ -7,6 +7,7 @@ import (
 	"math"
 	"reflect"
 	"sort"
+	"sync"
 
 	"github.com/bmeg/grip/engine/logic"
 	"github.com/bmeg/grip/gdbi"
@@ -923,6 +924,19 @@ func (b both) Process(ctx context.Context, man gdbi.Manager, in gdbi.InPipe, out
 		for i, p := range procs {
 			p.Process(ctx, man, chanIn[i], chanOut[i])
 		}
+		// forward the results of both directions while the input is still being
+		// fed: reading them only after the input ends blocks the traversal as
+		// soon as one direction has more results pending than its channels hold
+		wg := &sync.WaitGroup{}
+		for i := range procs {
+			wg.Add(1)
+			go func(ch chan gdbi.Traveler) {
+				defer wg.Done()
+				for c := range ch {
+					out <- c
+				}
+			}(chanOut[i])
+		}
 		for t := range in {
 			if t.IsSignal() {
 				out <- t
@@ -935,11 +949,7 @@ func (b both) Process(ctx context.Context, man gdbi.Manager, in gdbi.InPipe, out
 		for _, ch := range chanIn {
 			close(ch)
 		}
-		for i := range procs {
-			for c := range chanOut[i] {
-				out <- c
-			}
-		}
+		wg.Wait()
 	}()
 	return ctx
 }
